@@ -1,4 +1,4 @@
 SPECIFICATION PSpec
-CONSTANTS Widths = {1, 2} Cuts = {"fc"}
+CONSTANTS Widths = {1, 2} Cuts = {"fc"} Repaired = FALSE
 INVARIANTS C08_Progress
 CHECK_DEADLOCK FALSE
